@@ -88,6 +88,7 @@ pub fn c01(cx: &RunCtx) {
     crate::fam::pumping_all(cx, &[Kind::Panic]);
     crate::fam::critical_all(cx, &[Kind::Panic]);
     crate::fam::nested_slips_all(cx, &[Kind::Panic]);
+    crate::fam::foreign_all(cx, &[Kind::Panic]);
     crate::tchecks::all_ops_trees(cx, &[Kind::Panic]);
 }
 
@@ -120,6 +121,7 @@ pub fn c03(cx: &RunCtx) {
     crate::fam::per_name_all(cx, &[Kind::MalformedOk, Kind::WellFormedErr, Kind::PrefixOk]);
     crate::fam::pumping_all(cx, &[Kind::MalformedOk, Kind::WellFormedErr, Kind::PrefixOk]);
     crate::fam::nested_slips_all(cx, &[Kind::MalformedOk, Kind::WellFormedErr, Kind::PrefixOk]);
+    crate::fam::foreign_all(cx, &[Kind::MalformedOk, Kind::WellFormedErr, Kind::PrefixOk]);
 }
 
 // ---------------------------------------------------------------- C04
